@@ -211,6 +211,9 @@ def post(prop, tier, seed, env, target, outdir, vh):
         c, v = miri_sweep(prop, tier, seed, env, target, outdir, nproc=16, cases=25, seeds=None)
         cov.update(c)
         viols.extend(v)
+        c, v = fuzz_run(env, target, 150)
+        cov.update(c)
+        viols.extend(v)
     if prop == "C13" and thorough:
         c, v = miri_sweep(prop, tier, seed, env, target, outdir, nproc=8, cases=1, seeds=None)
         cov.update(c)
@@ -225,6 +228,59 @@ def post(prop, tier, seed, env, target, outdir, vh):
         json.dump({"prop": prop, "sig": v["sig"], "detail": v["detail"], "case": v["case"]}, open(path, "w"))
         outv.append({"sig": v["sig"], "detail": v["detail"], "replay": path})
     return cov, outv
+
+
+def fuzz_run(env, target, secs):
+    """Coverage-guided libFuzzer run over the byte-driven op interpreter (C12)."""
+    cov, viols = {}, []
+    e = dict(env)
+    e["CARGO_TARGET_DIR"] = os.path.join(target, "fuzz")
+    corpus = os.path.join(target, "fuzz-corpus")
+    art = os.path.join(target, "fuzz-artifacts") + "/"
+    os.makedirs(corpus, exist_ok=True)
+    os.makedirs(art, exist_ok=True)
+    for f in os.listdir(art):
+        os.remove(os.path.join(art, f))
+    b = subprocess.run(["cargo", "+nightly", "fuzz", "build", "--fuzz-dir", "/verif/fuzz", "ops"], env=e, stdout=subprocess.PIPE, stderr=subprocess.STDOUT, text=True, timeout=1800)
+    if b.returncode != 0:
+        cov["fuzz_build_failed"] = b.stdout[-400:]
+        return cov, viols
+    try:
+        r = subprocess.run(["cargo", "+nightly", "fuzz", "run", "--fuzz-dir", "/verif/fuzz", "ops", corpus, "--", f"-max_total_time={secs}", "-timeout=10", "-fork=16", "-ignore_crashes=1", f"-artifact_prefix={art}", "-max_len=2048"], env=e, stdout=subprocess.PIPE, stderr=subprocess.STDOUT, text=True, timeout=secs + 600)
+        out = r.stdout
+    except subprocess.TimeoutExpired:
+        cov["fuzz_timed_out"] = True
+        return cov, viols
+    import re
+    m = re.findall(r"#(\d+): cov: (\d+) ft: (\d+) corp: (\d+)", out)
+    if m:
+        cov["fuzz_executions"] = int(m[-1][0])
+        cov["fuzz_coverage_edges"] = int(m[-1][1])
+        cov["fuzz_corpus"] = int(m[-1][3])
+    arts = sorted(os.listdir(art))
+    cov["fuzz_crash_artifacts"] = len(arts)
+    seen = set()
+    for a in arts[:50]:
+        data = open(os.path.join(art, a), "rb").read()
+        kind = a.split("-")[0]
+        # classify by replaying through the harness (gives the panic signature)
+        case = {"FuzzInput": {"data": data.hex()}}
+        tmp = os.path.join(target, "tmp", "fuzz_replay.json")
+        json.dump({"prop": "C12", "case": case}, open(tmp, "w"))
+        outp = tmp + ".out"
+        vh = os.path.join(target, "debug", "vharness")
+        try:
+            subprocess.run([vh, "replay", tmp, "--out", outp], stdout=subprocess.PIPE, stderr=subprocess.PIPE, timeout=60)
+            sigs = json.load(open(outp))["sigs"] if os.path.exists(outp) else []
+        except subprocess.TimeoutExpired:
+            sigs = ["C12|hang|fuzz input"]
+        if not sigs:
+            sigs = [f"C12|fuzz-{kind}|not reproduced in the checked build"]
+        for sg in sigs:
+            if sg not in seen:
+                seen.add(sg)
+                viols.append({"sig": sg + "|found-by-libFuzzer", "detail": f"libFuzzer artifact {a} ({len(data)} bytes)", "case": case, "count": 1})
+    return cov, viols
 
 
 def miri_sweep(prop, tier, seed, env, target, outdir, nproc, cases, seeds):
